@@ -41,7 +41,7 @@
  * to an empty slot answers -1 without calling into the library.  Guarded preconditions (answer -1): edits of a list key
  * inside its list instance, nodes inserted below themselves, siblings duplicated into their own sibling list, whole-tree
  * calls on an unlinked nested subtree, absolute lyd_new_path next to a nested node, LYD_PARSE_ORDERED, *_CANON values;
- * known-defective calls that only the witnesses make (flag argument): F112, F116, F123. */
+ * known-defective calls that only the witnesses make (flag argument): F112, F116, F153. */
 #define _GNU_SOURCE
 #include <ctype.h>
 #include <stdarg.h>
@@ -1248,7 +1248,7 @@ do_op(const struct op *o, int idx)
         /* F112: lyd_insert_sibling() of the node that is the first sibling of the destination links the node to itself;
          * only the witness (arg 5 = 1) goes there */
         if (IS("is") && (lyd_first_sibling(dst) == n) && (A_i(o, 5) != 1)) return -1;
-        /* F123: a first top-level sibling takes its followers along (lyd_move_nodes); into a sibling list that has
+        /* F153: a first top-level sibling takes its followers along (lyd_move_nodes); into a sibling list that has
          * instances of the same list this ties the ring into a cycle or drops the first destination sibling;
          * only the witness (arg 5 = 2) goes there */
         whole = (!n->parent && !n->prev->next && n->next) ? 1 : 0;
